@@ -27,9 +27,9 @@ func init() {
 		Level:       "exploration",
 		Rule:        "PRNG-generated sequences of transfer/transferX/mint/burn/lock/newEpoch (direct, via a holder contract, via Netmap fan-out) by owners, strangers, contracts, Alphabet, Majority and single members on committees of 1/3/4/7, amounts from a pool around {-2^63,-balance,-1,0,1,balance-1,balance,balance+1,2^63,10^30}, 1-3 transactions per block; after every block a raw scan of the Balance storage and a shadow ledger rebuilt from Transfer notifications are compared. A case is one transaction; distinct = (method, signer class, scopes/address shape, amount class, outcome); non-trivial = it changed storage, faulted or was refused.",
 		Assumptions: []string{"neo-go v0.107.0 VM, ledger and native contracts are the trusted base", "contracts are compiled at check time from /repo/contracts with the module-cache compiler", "Alphabet-only methods receive 20-byte addresses and lock targets are fresh (property quantifier)"},
-		Batches:     tierN(64, 1024),
+		Batches:     tierN(256, 4096),
 		Helpers:     []string{"holder"},
-		Chunk:       4,
+		Chunk:       8,
 		Floors:      []string{"ok-transfer", "ok-transferX", "ok-mint", "ok-burn", "ok-lock", "ok-unlock", "refused-transfer-false", "faulted-alphabet-call", "self-transfer", "account-emptied"},
 		Run:         func(b *runner.Batch) { runBalance(b, "C01") },
 	})
@@ -38,9 +38,9 @@ func init() {
 		Level:       "exploration",
 		Rule:        "PRNG-generated (from, to, amount, signer set, scope) combinations for the public transfer, directly and through a holder contract, interleaved with Alphabet operations; one transaction per block; for every account whose balance decreased (storage diff) the signer set is inspected. distinct = (method, signer class, scopes, address shape, amount class, outcome); non-trivial = changed storage, faulted or refused.",
 		Assumptions: []string{"neo-go v0.107.0 VM, ledger and native contracts are the trusted base", "authorisation oracle is the weak form: a signer with any scope but None counts as that account's witness"},
-		Batches:     tierN(64, 1024),
+		Batches:     tierN(256, 4096),
 		Helpers:     []string{"holder"},
-		Chunk:       4,
+		Chunk:       8,
 		Floors:      []string{"debit-by-owner-witness", "debit-by-calling-contract", "debit-by-alphabet", "refused-foreign-signer", "refused-wrong-scope", "refused-foreign-contract-caller"},
 		Run:         func(b *runner.Batch) { runBalance(b, "C02") },
 	})
@@ -49,9 +49,9 @@ func init() {
 		Level:       "exploration",
 		Rule:        "PRNG-generated sequences of lock/burn/transferX/transfer/newEpoch with 1-8 simultaneous locks sharing parents and expiry epochs, until in the past/present/future, zero-amount locks, partial and full burns, epoch jumps; ticks are delivered through Netmap.newEpoch fan-out (and directly). A lock model predicts, per tick, the exact multiset of unlock transfers and balance deltas; after every block every lock account ever created is read. distinct = (method, signer class, amount class, outcome); non-trivial = changed storage, faulted or refused.",
 		Assumptions: []string{"neo-go v0.107.0 VM, ledger and native contracts are the trusted base", "until = 0 (the contract's 'not a lock' sentinel) and self-transfers of lock accounts are outside the judged scope"},
-		Batches:     tierN(48, 512),
+		Batches:     tierN(192, 2048),
 		Helpers:     []string{"holder"},
-		Chunk:       4,
+		Chunk:       8,
 		Floors:      []string{"tick-released>=3", "lock-fully-burnt", "lock-partially-burnt", "zero-amount-lock", "tick-below-until", "zero-lock-released"},
 		Run:         func(b *runner.Batch) { runBalance(b, "C09") },
 	})
